@@ -397,13 +397,17 @@ func runC20(src sim.Source, o Opts) *Result {
 		res.inc("runs_with_builtin_log_handler")
 		rb, err := fox.New(fox.WithMiddleware(fox.Logger()))
 		var status int
-		if err == nil {
-			_, err = rb.Handle("GET", "/*{any}", func(c fox.Context) {
-				if status >= 300 && status < 400 {
-					c.SetHeader("Location", "/elsewhere/"+c.Param("any")[:6])
-				}
-				c.Writer().WriteHeader(status)
-			})
+		// (verbs of 1 to 14 bytes: the handler lays its columns out around the usual 3-7)
+		bverbs := []string{"GET", "GET", "DELETE", "OPTIONS", "PROPFIND", "VERSIONCONTROL", "X"}
+		for _, verb := range bverbs[1:] {
+			if err == nil {
+				_, err = rb.Handle(verb, "/*{any}", func(c fox.Context) {
+					if status >= 300 && status < 400 {
+						c.SetHeader("Location", "/elsewhere/"+c.Param("any")[:6])
+					}
+					c.Writer().WriteHeader(status)
+				})
+			}
 		}
 		if err != nil {
 			res.Trouble = "built-in handler router: " + err.Error()
@@ -414,11 +418,12 @@ func runC20(src sim.Source, o Opts) *Result {
 			status = sim.Pick(src, "bstatus", []int{200, 204, 302, 404, 500})
 			pad := sim.Pick(src, "bpad", []int{0, 0, 100, 17000, 70000})
 			tok := fmt.Sprintf("btok%dx", q)
-			bp := world.Probe{Method: "GET", Host: "sim.invalid", Path: "/" + tok + "/" + strings.Repeat("p", pad)}
+			bm := sim.Pick(src, "bverb", bverbs)
+			bp := world.Probe{Method: bm, Host: "sim.invalid", Path: "/" + tok + "/" + strings.Repeat("p", pad)}
 			if pad > 0 && src.Intn("padinhost", 2) == 1 {
 				// the huge attribute is the Host (any attribute may be the one that outgrows a buffer; the ones after it
 				// still belong to the record)
-				bp = world.Probe{Method: "GET", Host: strings.Repeat("h", pad) + ".sim.invalid", Path: "/" + tok + "/"}
+				bp = world.Probe{Method: bm, Host: strings.Repeat("h", pad) + ".sim.invalid", Path: "/" + tok + "/"}
 			}
 			conn := world.NewConn()
 			var escaped any
@@ -433,13 +438,13 @@ func runC20(src sim.Source, o Opts) *Result {
 			res.Checks++
 			text := world.StripANSI(out)
 			squeezed := strings.ReplaceAll(text, " ", "") // the handler pads its columns
-			where := fmt.Sprintf("built-in log handler, request %d (GET /%s/ + %d bytes -> %d)", q, tok, pad, status)
+			where := fmt.Sprintf("built-in log handler, request %d (%s /%s/ + %d bytes -> %d)", q, bm, tok, pad, status)
 			switch {
 			case escaped != nil:
 				res.fail("C20/panic", "%s: ServeHTTP panicked: %v", where, escaped)
 			case strings.Count(text, "[FOX]") != 1:
 				res.fail("C20/record-count", "%s: %d records written, expected exactly 1 (%d bytes of output)", where, strings.Count(text, "[FOX]"), len(text))
-			case !strings.Contains(text, tok) || !strings.Contains(squeezed, fmt.Sprintf("status=%dmethod=GEThost=%spath=%s", status, bp.Host, bp.Path)):
+			case !strings.Contains(text, tok) || !strings.Contains(squeezed, fmt.Sprintf("status=%dmethod=%shost=%spath=%s", status, bm, bp.Host, bp.Path)):
 				res.fail("C20/request-attrs", "%s: the record lacks the request's own status, method, host or path: %.300q", where, text)
 			case status >= 300 && status < 400 && !strings.Contains(squeezed, "location=/elsewhere/"+tok[:5]):
 				res.fail("C20/location", "%s: the 3xx record does not carry the Location header: %.200q ... %.200q", where, text, text[max(0, len(text)-200):])
